@@ -70,6 +70,10 @@ def obligations(tier, seed):
     return [
         dict(name='C04.interface_names', fn='interface_names', shards=plan(skeletons.TEMPLATES, tier, seed + 1, 24), timeout=t,
              bounds='see META; quick = seeded rotation of 24 skeletons', public_replay='public_interface_names'),
+        dict(name='C04.interface_names_ann', fn='interface_names_ann', timeout=t,
+             shards=[['k == %d' % k, 'len(A) == %d and len(B) == %d and len(C) == %d' % (L, L, L), '"." not in A and "." not in B and "." not in C', 'rl == True', 'rg == %s' % rg]
+                     for k in range(len(skeletons.ANN_TEMPLATES)) for (L, rg) in (((1, True), (3, False)) if tier == 'quick' else ((1, True), (1, False), (3, True), (3, False)))],
+             bounds='3 skeletons with annotated class attributes / locals, remove_annotations (all kinds) on'),
         dict(name='C04.arg_rule', fn='arg_rule', shards=[['kind == %d' % kd] for kd in range(6)], timeout=t,
              bounds='6 parameter kinds x in/out of class x def/lambda, decorator name |dec| <= 11 and parameter name |A| <= 4 symbolic'),
         dict(name='C04.twin', fn='rename_binding_twin', shards=[['k == 5', 'len(A) == 3 and len(B) == 3 and len(C) == 3']],
